@@ -162,7 +162,11 @@ def _loop_sink(event, f):
         rec_["final"] = _full_states(sd, f["node_id"], graph, f["reach"])
 
 
-def _attractor_test(sd, node_id, graph, pivot, avoid_set):
+def _attractor_test(*args, **kwargs):
+    a = _bound(_orig_attractor_test, args, kwargs)
+    if a is None or not all(k in a for k in ("sd", "node_id", "graph", "pivot", "avoid_set")):
+        return _orig_attractor_test(*args, **kwargs)       # refactored signature: no loop records for this call
+    sd, node_id, graph, pivot, avoid_set = a["sd"], a["node_id"], a["graph"], a["pivot"], a["avoid_set"]
     names = var_names(sd)
     small = len(names) <= 8
     rec_ = {"_sd": sd, "node": node_id + 1, "space": vec(sd.node_data(node_id)["space"], names),
@@ -174,7 +178,7 @@ def _attractor_test(sd, node_id, graph, pivot, avoid_set):
         rec_["avoid0"] = _full_states(sd, node_id, graph, avoid_set)
     _cur_loop.append(rec_)
     try:
-        r = _orig_attractor_test(sd, node_id, graph, pivot, avoid_set)
+        r = _orig_attractor_test(*args, **kwargs)
         rec_["result"] = "hit" if r is None else "closure"
         return r
     finally:
@@ -199,10 +203,15 @@ def _pstate(space: dict, names: list[str]) -> int:
     return sum(1 << names.index(k) for k, v in space.items() if v)
 
 
-def _cac(sd, node_id, greedy_asp_minification, simulation_minification, pint_minification):
+def _cac(*args, **kwargs):
+    a = _bound(_orig_cac, args, kwargs)
+    if a is None or not all(k in a for k in ("sd", "node_id", "greedy_asp_minification", "simulation_minification")):
+        return _orig_cac(*args, **kwargs)
+    sd, node_id = a["sd"], a["node_id"]
+    greedy_asp_minification, simulation_minification = a["greedy_asp_minification"], a["simulation_minification"]
     names = var_names(sd)
-    if sd is not CTX.active or CTX.fail_at is not None or len(names) > PIPE_MAXN or _pipe[0] is not None or pint_minification:
-        return _orig_cac(sd, node_id, greedy_asp_minification, simulation_minification, pint_minification)
+    if sd is not CTX.active or CTX.fail_at is not None or len(names) > PIPE_MAXN or _pipe[0] is not None or a.get("pint_minification"):
+        return _orig_cac(*args, **kwargs)
     nd = sd.node_data(node_id)
     space = dict(nd["space"])
     nfree = len(names) - len(space)
@@ -217,7 +226,7 @@ def _cac(sd, node_id, greedy_asp_minification, simulation_minification, pint_min
     _pipe[0] = rec_
     ret, out = "ok", []
     try:
-        r = _orig_cac(sd, node_id, greedy_asp_minification, simulation_minification, pint_minification)
+        r = _orig_cac(*args, **kwargs)
         out = [_pstate(x, names) for x in r]
         return r
     except RuntimeError:
@@ -232,40 +241,65 @@ def _cac(sd, node_id, greedy_asp_minification, simulation_minification, pint_min
         rec_["events"].append({"k": "end", "ret": ret, "C": out, "uknown": u is not None,
                                "U": sorted(names.index(x) + 1 for x in (u or [])), "avhint": avhint})
         del rec_["_sd"], rec_["_space"]
-        if ret != "abort":
+        if ret != "abort" and not rec_.get("broken"):
             PIPES.append(rec_)
 
 
-def _mhrs(graph, nfvs, avoid_dnf):
-    r = _orig_mhrs(graph, nfvs, avoid_dnf)
+def _bound(orig, args, kwargs):
+    """arguments of an internal library function by name, whatever its current signature (None if they cannot be bound)"""
+    import inspect
+    try:
+        return inspect.signature(orig).bind(*args, **kwargs).arguments
+    except (TypeError, ValueError):
+        return None
+
+
+def _mhrs(*args, **kwargs):
+    r = _orig_mhrs(*args, **kwargs)
     rec_ = _pipe[0]
     if rec_ is not None:
-        names = var_names(rec_["_sd"])
-        sp = rec_["_space"]
-        rec_["events"].append({"k": "retained", "U": sorted(names.index(x) + 1 for x in nfvs),
-                               "av": [vec(sp | a, names) for a in avoid_dnf], "R": vec(r, names)})
+        try:
+            a = _bound(_orig_mhrs, args, kwargs)
+            names = var_names(rec_["_sd"])
+            sp = rec_["_space"]
+            rec_["events"].append({"k": "retained", "U": sorted(names.index(x) + 1 for x in a["nfvs"]),
+                                   "av": [vec(sp | m, names) for m in a["avoid_dnf"]], "R": vec(r, names)})
+        except Exception:  # noqa: BLE001 - a refactored stage function: this run is not validated at stage level
+            rec_["broken"] = True
     return r
 
 
-def _greedy_opt(sd, node_id, petri_net, retained_set, candidate_states, avoid_dnf):
+def _greedy_opt(*args, **kwargs):
     rec_ = _pipe[0]
-    if rec_ is None or rec_["_sd"] is not sd:
-        return _orig_greedy(sd, node_id, petri_net=petri_net, retained_set=retained_set, candidate_states=candidate_states, avoid_dnf=avoid_dnf)
-    names = var_names(sd)
+    a = _bound(_orig_greedy, args, kwargs) if rec_ is not None else None
+    if rec_ is None or a is None or a.get("sd") is not rec_["_sd"]:
+        if rec_ is not None:
+            rec_["broken"] = True
+        return _orig_greedy(*args, **kwargs)
+    names = var_names(rec_["_sd"])
     rec_["events"].append({"k": "gbegin"})
-    r = _orig_greedy(sd, node_id, petri_net=petri_net, retained_set=retained_set, candidate_states=candidate_states, avoid_dnf=avoid_dnf)
-    rec_["events"].append({"k": "gend", "R": vec(r[0], names), "C": [_pstate(x | rec_["_space"], names) for x in r[1]]})
+    r = _orig_greedy(*args, **kwargs)
+    try:
+        rec_["events"].append({"k": "gend", "R": vec(r[0], names), "C": [_pstate(x | rec_["_space"], names) for x in r[1]]})
+    except Exception:  # noqa: BLE001
+        rec_["broken"] = True
     return r
 
 
-def _simmin(sd, node_id, graph, candidate_states, avoid_bdd, max_iterations, simulation_seed):
+def _simmin(*args, **kwargs):
     rec_ = _pipe[0]
-    if rec_ is None or rec_["_sd"] is not sd:
-        return _orig_simmin(sd, node_id, graph, candidate_states, avoid_bdd, max_iterations=max_iterations, simulation_seed=simulation_seed)
-    names = var_names(sd)
-    cin = [_pstate(x | rec_["_space"], names) for x in candidate_states]
-    r = _orig_simmin(sd, node_id, graph, candidate_states, avoid_bdd, max_iterations=max_iterations, simulation_seed=simulation_seed)
-    rec_["events"].append({"k": "sim", "Cin": cin, "it": int(max_iterations), "X": [_pstate(x | rec_["_space"], names) for x in r]})
+    a = _bound(_orig_simmin, args, kwargs) if rec_ is not None else None
+    if rec_ is None or a is None or a.get("sd") is not rec_["_sd"] or "candidate_states" not in a or "max_iterations" not in a:
+        if rec_ is not None:
+            rec_["broken"] = True
+        return _orig_simmin(*args, **kwargs)
+    names = var_names(rec_["_sd"])
+    cin = [_pstate(x | rec_["_space"], names) for x in a["candidate_states"]]
+    r = _orig_simmin(*args, **kwargs)
+    try:
+        rec_["events"].append({"k": "sim", "Cin": cin, "it": int(a["max_iterations"]), "X": [_pstate(x | rec_["_space"], names) for x in r]})
+    except Exception:  # noqa: BLE001
+        rec_["broken"] = True
     return r
 
 
@@ -274,8 +308,12 @@ def _pipe_solve(args, kwargs, res):
     if rec_ is None:
         return
     names = var_names(rec_["_sd"])
-    retained = args[1] if len(args) > 1 else kwargs.get("retained_set")
-    lim_ = kwargs.get("solution_limit", None)
+    a = _bound(_orig_reduced, args, kwargs)
+    if a is None or "retained_set" not in a:
+        rec_["broken"] = True
+        return
+    retained = a["retained_set"]
+    lim_ = a.get("solution_limit", None)
     rec_["events"].append({"k": "solve", "r": vec(retained, names), "L": -1 if lim_ is None else int(lim_),
                            "X": [_pstate(x | rec_["_space"], names) for x in res]})
 
